@@ -39,7 +39,10 @@ for arg in sys.argv[1:]:
     shutil.copy(W + '/patch.diff', dst + '/patch.diff')
     shutil.copy('/tmp/w10demo%s-%s.rs' % (b, pid), dst + '/demo.rs')
     note = open(W + '/NOTE.md', errors='replace').read() if os.path.exists(W + '/NOTE.md') else ''
-    final = after or blind
+    final = {'checks': dict(blind['checks']), 'what': blind['what']}
+    if after:
+        final['checks'].update(after['checks'])
+        final['what'] = after['what'] or blind['what']
     caught = [k for k, v in final['checks'].items() if v['exit'] == 1]
     meta = {
         'property': pid,
